@@ -11,7 +11,7 @@ from vlib import build_walks, read_ndjson, split_traces, Infra
 
 PROPS = ["C21", "C22"]
 
-QUICK = {"C21": ["P2", "M", "A"], "C22": ["T", "A", "O"], "C35": ["P2", "M"]}
+QUICK = {"C21": ["P2", "M", "A"], "C22": ["T", "A", "O", "U"], "C35": ["P2", "M"]}
 THOROUGH = {"C21": ["P", "Q", "A", "M", "T"], "C22": ["P", "Q", "A", "M", "T", "O", "U"], "C35": ["P2", "M", "A", "T"]}
 # free-running races (one handler's snapshot write is slow, the other starts meanwhile, the process
 # stops when the slow write returned): which pairs exist per scenario
@@ -49,6 +49,8 @@ def run(ctx, args, race_only=False):
     mine = known_set(ctx)
     # ---- E3
     for sc in ([] if race_only else scns):
+        if quick and sc == "U":
+            continue            # exhaustive check of U only in the thorough tier (its graph is still emitted)
         cfg = "MC_Node_%s_All.cfg" % sc
         src = open(os.path.join(d, cfg)).read().replace("Known <- KnownAll", "Known <- %s" % (
             {frozenset(): "KnownNone", frozenset({"C21-1"}): "Known21", frozenset({"C22-1"}): "Known22",
@@ -70,6 +72,12 @@ def run(ctx, args, race_only=False):
         if not race_only:
             edges = ctx.tlc_edges(d, "MC_Node.tla", "Gen_Node_%s.cfg" % sc)
             ws = build_walks(edges, rng=rng, n_random=(10 if quick else 200), depth=30, maxlen=36)
+            if quick and sc == "U":
+                # the unknown-external scenario is large: the quick tier replays a seeded sample of the
+                # walks that go through the replacement of the head references
+                ws = [w for w in ws if any(e["o"].get("call") == "UpdateEmptyHeadRound" for e in w)]
+                rng.shuffle(ws)
+                ws = ws[:45]
             for w in ws:
                 walks.append({"scn": sc, "steps": [e["o"] for e in w]})
         for pair in RACES.get(sc, []):
